@@ -144,7 +144,14 @@ def check(an: Analysis) -> None:
     ctor_nodes = [n for n in g.nodes if n.kind == "call" and is_name(n.ast.func, p_type)]  # type: ignore[union-attr]
     rets = [n for n in g.nodes if n.kind == "return"]
     for label, (present, has_default) in {"present": (True, False), "present+default": (True, True), "absent+default": (False, True), "absent": (False, False)}.items():
-        sc = scenario(g, env(present, has_default))
+        sc0 = scenario(g, env(present, has_default))
+
+        def sc(a, b, lab, sc0=sc0, present=present):
+            # `self._state[<type>]` inside a try that anticipates KeyError: raises iff the type is absent
+            if a.kind == "subscript" and is_state_map(a.ast.value):  # type: ignore[union-attr]
+                return (lab == "exc") if present else (lab != "exc")
+            return sc0(a, b, lab)
+
         reach = g.reachable([g.entry], skip_edge=sc)
         live = [r for r in rets if r.id in reach]
         ob.inst(state, None, f"scenario {label}: {len(live)} reachable return(s)")
